@@ -82,6 +82,95 @@ fn run<K: KemT>(name: &str) {
     let mut ex = [0u8; 48];
     s.export(b"", &mut ex).unwrap();
     println!("{} export-only {}", name, hex(&ex));
+    behaviour::<K>(name, &sk_r, &pk_r);
+}
+
+/// Yes/no facts that must hold under every feature subset (hpke-mc C17-expect prints the same lines, all `true`)
+fn behaviour<K: KemT>(name: &str, sk_r: &K::PrivateKey, pk_r: &K::PublicKey) {
+    use hpke::HpkeError as E;
+    let info = b"c17 behaviour";
+    let nsk = K::PrivateKey::size();
+    let npk = K::PublicKey::size();
+    let mut rng = Script(ikm(11, nsk), 0);
+    let (enc, mut s) = hpke::setup_sender::<ChaCha20Poly1305, HkdfSha256, K, _>(&OpModeS::Base, pk_r, info, &mut rng).unwrap();
+    let mut r = hpke::setup_receiver::<ChaCha20Poly1305, HkdfSha256, K>(&OpModeR::Base, sk_r, &enc, info).unwrap();
+    let mut m0 = *b"message zero";
+    let t0 = s.seal_in_place_detached(&mut m0, b"a0").unwrap();
+    let mut m1 = *b"message one!";
+    let t1 = s.seal_in_place_detached(&mut m1, b"a1").unwrap();
+    // integrity and sequencing through the in-place form
+    let mut ok = true;
+    for variant in 0..5 {
+        let mut b = m0;
+        let mut tag = t0.to_bytes();
+        let mut aad = *b"a0";
+        match variant {
+            0 => b[0] ^= 1,
+            1 => b[11] ^= 0x80,
+            2 => tag[0] ^= 1,
+            3 => tag[15] ^= 0x80,
+            _ => aad[1] ^= 1,
+        }
+        let tag = AeadTag::<ChaCha20Poly1305>::from_bytes(&tag).unwrap();
+        ok &= matches!(r.open_in_place_detached(&mut b, &aad, &tag), Err(E::OpenError));
+    }
+    let mut b = m1;
+    ok &= matches!(r.open_in_place_detached(&mut b, b"a1", &t1), Err(E::OpenError)); // message 1 before message 0
+    println!("{} rejects modified and out-of-order deliveries {}", name, ok);
+    let mut b = m0;
+    let first = r.open_in_place_detached(&mut b, b"a0", &t0).is_ok() && &b == b"message zero";
+    let mut b = m0;
+    let replay = matches!(r.open_in_place_detached(&mut b, b"a0", &t0), Err(E::OpenError));
+    let mut b = m1;
+    let second = r.open_in_place_detached(&mut b, b"a1", &t1).is_ok() && &b == b"message one!";
+    println!("{} accepts the messages in order and rejects a replay {}", name, first && replay && second);
+    // export length limit
+    let mut big = vec![0u8; 255 * 32 + 1];
+    let lim_ok = s.export(b"x", &mut big[..255 * 32]).is_ok() && r.export(b"x", &mut big[..255 * 32]).is_ok();
+    let lim_err = matches!(s.export(b"x", &mut big), Err(E::KdfOutputTooLong)) && matches!(r.export(b"x", &mut big), Err(E::KdfOutputTooLong));
+    println!("{} export succeeds up to 255*Nh and fails beyond {}", name, lim_ok && lim_err);
+    // serialization sizes and length errors
+    let sizes = pk_r.to_bytes().len() == npk && sk_r.to_bytes().len() == nsk && enc.to_bytes().len() == K::EncappedKey::size() && t0.to_bytes().len() == 16;
+    let short = matches!(K::PublicKey::from_bytes(&pk_r.to_bytes()[..npk - 1]), Err(E::IncorrectInputLength(a, b)) if a == npk && b == npk - 1)
+        && matches!(K::PrivateKey::from_bytes(&[]), Err(E::IncorrectInputLength(a, 0)) if a == nsk)
+        && matches!(K::EncappedKey::from_bytes(&[4u8; 200]), Err(E::IncorrectInputLength(a, 200)) if a == K::EncappedKey::size())
+        && matches!(AeadTag::<ChaCha20Poly1305>::from_bytes(&[0u8; 15]), Err(E::IncorrectInputLength(16, 15)));
+    println!("{} serialized sizes and length errors {}", name, sizes && short);
+    let rt = K::PublicKey::from_bytes(&pk_r.to_bytes()).map(|p| p.to_bytes() == pk_r.to_bytes()).unwrap_or(false)
+        && K::PrivateKey::from_bytes(&sk_r.to_bytes()).map(|k| K::sk_to_pk(&k).to_bytes() == pk_r.to_bytes()).unwrap_or(false);
+    println!("{} keys survive a serialization round trip {}", name, rt);
+    // invalid key material
+    let bad_keys = if npk == 32 {
+        // X25519: a small-order encapsulated key / recipient key aborts setup
+        let zero = K::EncappedKey::from_bytes(&[0u8; 32]).unwrap();
+        let zpk = K::PublicKey::from_bytes(&[0u8; 32]).unwrap();
+        let mut rng = Script(ikm(12, nsk), 0);
+        matches!(hpke::setup_receiver::<ChaCha20Poly1305, HkdfSha256, K>(&OpModeR::Base, sk_r, &zero, info), Err(E::DecapError))
+            && matches!(hpke::setup_sender::<ChaCha20Poly1305, HkdfSha256, K, _>(&OpModeS::Base, &zpk, info, &mut rng), Err(E::EncapError))
+    } else {
+        let mut off = pk_r.to_bytes().to_vec();
+        let l = off.len();
+        off[l - 1] ^= 1; // no longer on the curve
+        let mut compressed = pk_r.to_bytes().to_vec();
+        compressed[0] = 2;
+        matches!(K::PublicKey::from_bytes(&off), Err(E::ValidationError))
+            && matches!(K::EncappedKey::from_bytes(&off), Err(E::ValidationError))
+            && matches!(K::PublicKey::from_bytes(&compressed), Err(E::ValidationError))
+            && matches!(K::PublicKey::from_bytes(&vec![0u8; npk]), Err(E::ValidationError))
+            && matches!(K::PrivateKey::from_bytes(&vec![0u8; nsk]), Err(E::ValidationError))
+            && matches!(K::PrivateKey::from_bytes(&vec![0xffu8; nsk]), Err(E::ValidationError))
+    };
+    println!("{} invalid key material is refused {}", name, bad_keys);
+    let psk_rule = matches!(PskBundle::new(b"", b"id"), Err(E::InvalidPskBundle)) && matches!(PskBundle::new(b"k", b""), Err(E::InvalidPskBundle)) && PskBundle::new(b"", b"").is_ok() && PskBundle::new(b"k", b"i").is_ok();
+    println!("{} psk and psk_id together or not at all {}", name, psk_rule);
+    // a receiver with another info string shares nothing with the sender
+    let mut r2 = hpke::setup_receiver::<ChaCha20Poly1305, HkdfSha256, K>(&OpModeR::Base, sk_r, &enc, b"c17 behaviour\0").unwrap();
+    let mut b = m0;
+    let mut e1 = [0u8; 32];
+    let mut e2 = [0u8; 32];
+    s.export(b"y", &mut e1).unwrap();
+    r2.export(b"y", &mut e2).unwrap();
+    println!("{} a mismatched receiver shares no key material {}", name, r2.open_in_place_detached(&mut b, b"a0", &t0).is_err() && e1 != e2);
 }
 
 fn main() {
